@@ -24,13 +24,23 @@ fn ttl_round_trips_in_both_spellings() {
         let enc = serde_json::to_vec(&f).unwrap();
         let dec: Frame = serde_json::from_slice(&enc).unwrap_or_else(|e| panic!("C12: stored frame with ttl {:?} does not parse back: {}", t, e));
         assert!(dec == f, "C12: frame round trip with ttl {:?}", t);
+        // every way serde_json can hand over the same JSON: as a Value, from a reader, with an escaped character in the string
+        let v = serde_json::to_value(&f).unwrap();
+        let dec: Frame = serde_json::from_value(v).unwrap_or_else(|e| panic!("C12: frame with ttl {:?} does not parse back from a Value: {}", t, e));
+        assert!(dec == f, "C12: frame round trip through a Value with ttl {:?}", t);
+        let dec: Frame = serde_json::from_reader(std::io::Cursor::new(enc.clone())).unwrap_or_else(|e| panic!("C12: frame with ttl {:?} does not parse back from a reader: {}", t, e));
+        assert!(dec == f, "C12: frame round trip through a reader with ttl {:?}", t);
+        let escaped = j.replace(':', "\\u003a");
+        let back: TTL = serde_json::from_str(&escaped).unwrap_or_else(|e| panic!("C12: {} (the same JSON string, escaped) rejected: {}", escaped, e));
+        assert_eq!(back, t, "C12: escaped JSON spelling of {:?}", t);
     }
 }
 
 #[test]
 fn malformed_ttls_are_rejected() {
     for s in ["head:0", "head:-1", "head:4294967296", "head:8589934592", "head:18446744073709551616", "head:", "head:1x", "head: 1", "time:-1",
-              "time:18446744073709551616", "time:", "time:1.5", "Forever", "forever ", "", "eternal", "head", "time", "head:+", "time:1e3"] {
+              "time:18446744073709551616", "time:", "time:1.5", "Forever", "forever ", "", "eternal", "head", "time", "head:+", "time:1e3",
+              "head:1:0", "head:3:", "time:60000:forever", "forever:x", "ephemeral:", ":head:1"] {
         assert!(parse_ttl(s).is_err(), "C12: malformed TTL {:?} accepted as {:?}", s, parse_ttl(s));
         assert!(serde_json::from_str::<TTL>(&format!("\"{}\"", s)).is_err(), "C12: malformed TTL {:?} accepted from JSON", s);
     }
